@@ -10,18 +10,18 @@ set_option linter.unusedSimpArgs false
 set_option linter.unusedVariables false
 
 theorem utf8Len_1 (a : Byte) (r : Bytes) (h : a ≤ 0x7F) : utf8Len (a :: r) = some 1 := by
-  have : a < 0x80 := by bv_decide
+  have : a < 0x80 := by bv_decide (timeout := 300)
   simp only [utf8Len, this, ↓reduceIte]
 
 theorem utf8Len_2 (a b : Byte) (r : Bytes)
     (h : 0xC2 ≤ a ∧ a ≤ 0xDF ∧ 0x80 ≤ b ∧ b ≤ 0xBF) : utf8Len (a :: b :: r) = some 2 := by
   obtain ⟨h1, h2, h3, h4⟩ := h
-  have e1 : ¬ a < 0x80 := by bv_decide
-  have e2 : a &&& 0xE0 = 0xC0 := by bv_decide
-  have e3 : b &&& 0xC0 = 0x80 := by bv_decide
-  have e4 : ¬ (((a.setWidth 32 &&& 0x1F) <<< 6 ||| (b.setWidth 32 &&& 0x3F) : BitVec 32) < 0x80) := by bv_decide
-  have e5 : ¬ (((a.setWidth 32 &&& 0x1F) <<< 6 ||| (b.setWidth 32 &&& 0x3F) : BitVec 32) > 0x7FF) := by bv_decide
-  have e6 : ¬ ((0xD800 : BitVec 32) ≤ ((a.setWidth 32 &&& 0x1F) <<< 6 ||| (b.setWidth 32 &&& 0x3F))) := by bv_decide
+  have e1 : ¬ a < 0x80 := by bv_decide (timeout := 300)
+  have e2 : a &&& 0xE0 = 0xC0 := by bv_decide (timeout := 300)
+  have e3 : b &&& 0xC0 = 0x80 := by bv_decide (timeout := 300)
+  have e4 : ¬ (((a.setWidth 32 &&& 0x1F) <<< 6 ||| (b.setWidth 32 &&& 0x3F) : BitVec 32) < 0x80) := by bv_decide (timeout := 300)
+  have e5 : ¬ (((a.setWidth 32 &&& 0x1F) <<< 6 ||| (b.setWidth 32 &&& 0x3F) : BitVec 32) > 0x7FF) := by bv_decide (timeout := 300)
+  have e6 : ¬ ((0xD800 : BitVec 32) ≤ ((a.setWidth 32 &&& 0x1F) <<< 6 ||| (b.setWidth 32 &&& 0x3F))) := by bv_decide (timeout := 300)
   simp only [utf8Len, e1, e2, e3, e4, e5, e6, ↓reduceIte, ne_eq, not_true_eq_false, or_self, false_and]
 
 
@@ -29,32 +29,32 @@ theorem utf8Len_3 (a b c : Byte) (r : Bytes)
     (h : ((a = 0xE0 ∧ 0xA0 ≤ b ∧ b ≤ 0xBF) ∨ (0xE1 ≤ a ∧ a ≤ 0xEC ∧ 0x80 ≤ b ∧ b ≤ 0xBF)
         ∨ (a = 0xED ∧ 0x80 ≤ b ∧ b ≤ 0x9F) ∨ (0xEE ≤ a ∧ a ≤ 0xEF ∧ 0x80 ≤ b ∧ b ≤ 0xBF))
         ∧ 0x80 ≤ c ∧ c ≤ 0xBF) : utf8Len (a :: b :: c :: r) = some 3 := by
-  have e1 : ¬ a < 0x80 := by bv_decide
-  have e2 : ¬ a &&& 0xE0 = 0xC0 := by bv_decide
-  have e2' : a &&& 0xF0 = 0xE0 := by bv_decide
-  have e3 : b &&& 0xC0 = 0x80 := by bv_decide
-  have e3' : c &&& 0xC0 = 0x80 := by bv_decide
-  have e4 : ¬ (((a.setWidth 32 &&& 0x0F) <<< 12 ||| (b.setWidth 32 &&& 0x3F) <<< 6 ||| (c.setWidth 32 &&& 0x3F) : BitVec 32) < 0x800) := by bv_decide
-  have e5 : ¬ (((a.setWidth 32 &&& 0x0F) <<< 12 ||| (b.setWidth 32 &&& 0x3F) <<< 6 ||| (c.setWidth 32 &&& 0x3F) : BitVec 32) > 0xFFFF) := by bv_decide
+  have e1 : ¬ a < 0x80 := by bv_decide (timeout := 300)
+  have e2 : ¬ a &&& 0xE0 = 0xC0 := by bv_decide (timeout := 300)
+  have e2' : a &&& 0xF0 = 0xE0 := by bv_decide (timeout := 300)
+  have e3 : b &&& 0xC0 = 0x80 := by bv_decide (timeout := 300)
+  have e3' : c &&& 0xC0 = 0x80 := by bv_decide (timeout := 300)
+  have e4 : ¬ (((a.setWidth 32 &&& 0x0F) <<< 12 ||| (b.setWidth 32 &&& 0x3F) <<< 6 ||| (c.setWidth 32 &&& 0x3F) : BitVec 32) < 0x800) := by bv_decide (timeout := 300)
+  have e5 : ¬ (((a.setWidth 32 &&& 0x0F) <<< 12 ||| (b.setWidth 32 &&& 0x3F) <<< 6 ||| (c.setWidth 32 &&& 0x3F) : BitVec 32) > 0xFFFF) := by bv_decide (timeout := 300)
   have e6 : ¬ ((0xD800 : BitVec 32) ≤ ((a.setWidth 32 &&& 0x0F) <<< 12 ||| (b.setWidth 32 &&& 0x3F) <<< 6 ||| (c.setWidth 32 &&& 0x3F)) ∧
-      ((a.setWidth 32 &&& 0x0F) <<< 12 ||| (b.setWidth 32 &&& 0x3F) <<< 6 ||| (c.setWidth 32 &&& 0x3F) : BitVec 32) ≤ 0xDFFF) := by bv_decide
+      ((a.setWidth 32 &&& 0x0F) <<< 12 ||| (b.setWidth 32 &&& 0x3F) <<< 6 ||| (c.setWidth 32 &&& 0x3F) : BitVec 32) ≤ 0xDFFF) := by bv_decide (timeout := 300)
   simp only [utf8Len, e1, e2, e2', e3, e3', e4, e5, e6, ↓reduceIte, ne_eq, not_true_eq_false, or_self, false_and]
 
 theorem utf8Len_4 (a b c d : Byte) (r : Bytes)
     (h : ((a = 0xF0 ∧ 0x90 ≤ b ∧ b ≤ 0xBF) ∨ (0xF1 ≤ a ∧ a ≤ 0xF3 ∧ 0x80 ≤ b ∧ b ≤ 0xBF)
         ∨ (a = 0xF4 ∧ 0x80 ≤ b ∧ b ≤ 0x8F)) ∧ 0x80 ≤ c ∧ c ≤ 0xBF ∧ 0x80 ≤ d ∧ d ≤ 0xBF) :
     utf8Len (a :: b :: c :: d :: r) = some 4 := by
-  have e1 : ¬ a < 0x80 := by bv_decide
-  have e2 : ¬ a &&& 0xE0 = 0xC0 := by bv_decide
-  have e2' : ¬ a &&& 0xF0 = 0xE0 := by bv_decide
-  have e2'' : a &&& 0xF8 = 0xF0 := by bv_decide
-  have e3 : b &&& 0xC0 = 0x80 := by bv_decide
-  have e3' : c &&& 0xC0 = 0x80 := by bv_decide
-  have e3'' : d &&& 0xC0 = 0x80 := by bv_decide
-  have e4 : ¬ (((a.setWidth 32 &&& 0x07) <<< 18 ||| (b.setWidth 32 &&& 0x3F) <<< 12 ||| (c.setWidth 32 &&& 0x3F) <<< 6 ||| (d.setWidth 32 &&& 0x3F) : BitVec 32) < 0x10000) := by bv_decide
-  have e5 : ¬ (((a.setWidth 32 &&& 0x07) <<< 18 ||| (b.setWidth 32 &&& 0x3F) <<< 12 ||| (c.setWidth 32 &&& 0x3F) <<< 6 ||| (d.setWidth 32 &&& 0x3F) : BitVec 32) > 0x10FFFF) := by bv_decide
+  have e1 : ¬ a < 0x80 := by bv_decide (timeout := 300)
+  have e2 : ¬ a &&& 0xE0 = 0xC0 := by bv_decide (timeout := 300)
+  have e2' : ¬ a &&& 0xF0 = 0xE0 := by bv_decide (timeout := 300)
+  have e2'' : a &&& 0xF8 = 0xF0 := by bv_decide (timeout := 300)
+  have e3 : b &&& 0xC0 = 0x80 := by bv_decide (timeout := 300)
+  have e3' : c &&& 0xC0 = 0x80 := by bv_decide (timeout := 300)
+  have e3'' : d &&& 0xC0 = 0x80 := by bv_decide (timeout := 300)
+  have e4 : ¬ (((a.setWidth 32 &&& 0x07) <<< 18 ||| (b.setWidth 32 &&& 0x3F) <<< 12 ||| (c.setWidth 32 &&& 0x3F) <<< 6 ||| (d.setWidth 32 &&& 0x3F) : BitVec 32) < 0x10000) := by bv_decide (timeout := 300)
+  have e5 : ¬ (((a.setWidth 32 &&& 0x07) <<< 18 ||| (b.setWidth 32 &&& 0x3F) <<< 12 ||| (c.setWidth 32 &&& 0x3F) <<< 6 ||| (d.setWidth 32 &&& 0x3F) : BitVec 32) > 0x10FFFF) := by bv_decide (timeout := 300)
   have e6 : ¬ ((0xD800 : BitVec 32) ≤ ((a.setWidth 32 &&& 0x07) <<< 18 ||| (b.setWidth 32 &&& 0x3F) <<< 12 ||| (c.setWidth 32 &&& 0x3F) <<< 6 ||| (d.setWidth 32 &&& 0x3F)) ∧
-      ((a.setWidth 32 &&& 0x07) <<< 18 ||| (b.setWidth 32 &&& 0x3F) <<< 12 ||| (c.setWidth 32 &&& 0x3F) <<< 6 ||| (d.setWidth 32 &&& 0x3F) : BitVec 32) ≤ 0xDFFF) := by bv_decide
+      ((a.setWidth 32 &&& 0x07) <<< 18 ||| (b.setWidth 32 &&& 0x3F) <<< 12 ||| (c.setWidth 32 &&& 0x3F) <<< 6 ||| (d.setWidth 32 &&& 0x3F) : BitVec 32) ≤ 0xDFFF) := by bv_decide (timeout := 300)
   simp only [utf8Len, e1, e2, e2', e2'', e3, e3', e3'', e4, e5, e6, ↓reduceIte, ne_eq, not_true_eq_false, or_self, false_and]
 
 /-- Completeness: a well-formed sequence at the head is accepted with its length. -/
@@ -96,7 +96,7 @@ theorem utf8Len_sound (rest : Bytes) (n : Nat) (h : utf8Len rest = some n) :
     by_cases e1 : a < 0x80
     · simp only [utf8Len, e1, ↓reduceIte] at h
       injection h with h; subst h
-      exact ⟨[a], t, rfl, rfl, by simp [utf8Wf]; bv_decide⟩
+      exact ⟨[a], t, rfl, rfl, by simp [utf8Wf]; bv_decide (timeout := 300)⟩
     by_cases e2 : a &&& 0xE0 = 0xC0
     · cases t with
       | nil => simp only [utf8Len, e1, e2, ↓reduceIte] at h; cases h
@@ -110,7 +110,7 @@ theorem utf8Len_sound (rest : Bytes) (n : Nat) (h : utf8Len rest = some n) :
             · cases h
             · injection h with h; subst h
               refine ⟨[a, b1], t', rfl, rfl, ?_⟩
-              simp [utf8Wf, isCont]; bv_decide
+              simp [utf8Wf, isCont]; bv_decide (timeout := 300)
     by_cases e3 : a &&& 0xF0 = 0xE0
     · match t with
       | [] => simp only [utf8Len, e1, e2, e3, ↓reduceIte] at h; cases h
@@ -125,7 +125,7 @@ theorem utf8Len_sound (rest : Bytes) (n : Nat) (h : utf8Len rest = some n) :
             · cases h
             · injection h with h; subst h
               refine ⟨[a, b1, b2], t', rfl, rfl, ?_⟩
-              simp [utf8Wf, isCont]; bv_decide
+              simp [utf8Wf, isCont]; bv_decide (timeout := 300)
     by_cases e4 : a &&& 0xF8 = 0xF0
     · match t with
       | [] => simp only [utf8Len, e1, e2, e3, e4, ↓reduceIte] at h; cases h
@@ -141,7 +141,7 @@ theorem utf8Len_sound (rest : Bytes) (n : Nat) (h : utf8Len rest = some n) :
             · cases h
             · injection h with h; subst h
               refine ⟨[a, b1, b2, b3], t', rfl, rfl, ?_⟩
-              simp [utf8Wf, isCont]; bv_decide
+              simp [utf8Wf, isCont]; bv_decide (timeout := 300)
     · simp only [utf8Len, e1, e2, e3, e4, ↓reduceIte] at h; cases h
 
 end SV.Json.Model
